@@ -195,7 +195,7 @@ impl Property for Prop {
         "C03"
     }
     fn rule(&self) -> &'static str {
-        "bits: for seeded fragment trains (2..6 packets, PDU 1..200 bytes, all label kinds incl. re-use substituted first fragments) built by the real encapsulator: EVERY single bit flip of every packet, EVERY burst (every start bit x length 2..32, all-ones pattern; thorough adds two random interior patterns), truncation at EVERY byte, drop / duplicate / adjacent swap of EVERY fragment, the frag-id field replaced by all 256 values, the CRC trailer replaced by {0, ~crc, crc+1, crc-1, byte rotations, random values}; totlen: the total-length field replaced by all 65536 values; double: seeded pairs of the above faults; reseal: structurally faulted trains whose trailer / total length are recomputed for a wrong interpretation (payload without the dropped fragment, with the duplicate, 16-bit wrapped overlay with >= 64 KiB storage, header of another train, label present but sealed as if re-used, first fragment repeated after an intermediate fragment, an early end fragment followed by more fragments, zero-length PDUs with a bad seal, a valid train interrupted by a first fragment of its own id that the receiver must refuse, a first fragment with an extension header sealed for a gap of stale storage bytes before / after its payload, a train sealed for the label mode (re-use / written) of a train abandoned on the same fragment id just before; a train whose total length is below protocol type + label sealed for exactly its fields; refused restarts also with the free list filled up so that the abandoned buffer cannot be given back); every other faulted transfer of the bits / totlen / double generators is fed to a receiver that has just delivered the intact train, and trains of different PDUs spliced on one fragment id; long: PDUs of 4 KiB..64 KiB fragmented by the real encapsulator, intact and with sampled bit flips / 32-bit bursts spread over the whole PDU (incl. offsets around 4095 and the last bytes) and a dropped fragment; big: trains near 65535 bytes with storage >= 64 KiB incl. over-long trains. Oracle 1 (specification on the received bytes) applies to every run; oracle 2 (no delivery / delivered == sent) to the fault classes the property names. Evaluation = one decap call of a faulted transfer; non-trivial = a faulted transfer (fault actually changed the bytes or the order) that was fed completely; fingerprint = hash(train, fault)."
+        "bits: for seeded fragment trains (2..6 packets, PDU 1..200 bytes, all label kinds incl. re-use substituted first fragments) built by the real encapsulator: EVERY single bit flip of every packet, EVERY burst (every start bit x length 2..32, all-ones pattern; thorough adds two random interior patterns), truncation at EVERY byte, drop / duplicate / adjacent swap of EVERY fragment, the frag-id field replaced by all 256 values, the CRC trailer replaced by {0, ~crc, crc+1, crc-1, byte rotations, random values}; totlen: the total-length field replaced by all 65536 values; double: seeded pairs of the above faults; reseal: structurally faulted trains whose trailer / total length are recomputed for a wrong interpretation (payload without the dropped fragment, with the duplicate, 16-bit wrapped overlay with >= 64 KiB storage, header of another train, label present but sealed as if re-used, first fragment repeated after an intermediate fragment, an early end fragment followed by more fragments, zero-length PDUs with a bad seal, a valid train interrupted by a first fragment of its own id that the receiver must refuse, a first fragment with an extension header sealed for a gap of stale storage bytes before / after its payload, a train sealed for the label mode (re-use / written) of a train abandoned on the same fragment id just before; a train whose total length is below protocol type + label sealed for exactly its fields; refused restarts also with the free list filled up so that the abandoned buffer cannot be given back); every other faulted transfer of the bits / totlen / double generators is fed to a receiver that has just delivered the intact train, and trains of different PDUs spliced on one fragment id; state: re-use trains announcing a total length within a label length of 65535 that carry fewer bytes than announced and are sealed for the received bytes, and trains whose end fragment arrives damaged and then intact while the application tops the free list up at a drawn point; long: PDUs of 4 KiB..64 KiB fragmented by the real encapsulator, intact and with sampled bit flips / 32-bit bursts spread over the whole PDU (incl. offsets around 4095 and the last bytes) and a dropped fragment; big: trains near 65535 bytes with storage >= 64 KiB incl. over-long trains. Oracle 1 (specification on the received bytes) applies to every run; oracle 2 (no delivery / delivered == sent) to the fault classes the property names. Evaluation = one decap call of a faulted transfer; non-trivial = a faulted transfer (fault actually changed the bytes or the order) that was fed completely; fingerprint = hash(train, fault)."
     }
     fn gens(&self, cx: &Cx) -> Vec<Gen> {
         vec![
@@ -205,6 +205,7 @@ impl Property for Prop {
             Gen { name: "reseal", count: cx.n(20_000, 1_000_000), exhaustive: false },
             Gen { name: "big", count: cx.n(48, 3_000), exhaustive: false },
             Gen { name: "long", count: cx.n(400, 60_000), exhaustive: false },
+            Gen { name: "state", count: cx.n(400, 40_000), exhaustive: false },
         ]
     }
     fn run_key(&self, cx: &Cx, gen: &str, key: u64, rep: &mut Report) {
@@ -795,6 +796,127 @@ impl Property for Prop {
                 pk.remove(di.min(pk.len() - 1));
                 run(&pk, "long-drop", true, rep);
                 rep.nontrivial(mix(0x10A6, mix(key, plen as u64)));
+            }
+            "state" => {
+                // scripted faults that need a particular receiver state
+                let l6 = rng.chance(1, 2);
+                let lt = if l6 { 0u8 } else { 1u8 };
+                let mut wl = rng.bytes(if l6 { 6 } else { 3 });
+                wl[0] |= 1;
+                let ptype = gen_user_ptype(&mut rng);
+                let id = rng.byte();
+                let table = MandTable::none();
+                if key % 2 == 0 {
+                    // (a) a re-use train whose announced total length is within a label length of 65535 and that
+                    // carries d bytes less than announced, sealed for what was received (three readings of the
+                    // total length that goes into the CRC); a receiver that keeps the label in its length
+                    // bookkeeping and clamps at 16 bits takes it
+                    let k = rng.below(wl.len());
+                    let t_ann = (65535 - k) as u16;
+                    let d = if rng.chance(2, 3) { wl.len() - k } else { 1 + rng.below(8) };
+                    let r_len = t_ann as usize - 2 - d;
+                    let data = rng.bytes(r_len);
+                    let crc_total = match rng.below(3) {
+                        0 => (r_len + 2) as u16,
+                        1 => t_ann,
+                        _ => (r_len + 2 + wl.len()).min(65535) as u16,
+                    };
+                    let crc = fr.gse(crc_total, ptype, &[], &data);
+                    let first_n = rng.below(120);
+                    let mut pkts = vec![crate::hostile::mk_complete(lt, &wl, ptype, b"x"), mk_first(3, &[], id, t_ann, ptype, &data[..first_n])];
+                    let mut off = first_n;
+                    while r_len - off > 4000 {
+                        pkts.push(mk_inter(id, &data[off..off + 4000]));
+                        off += 4000;
+                    }
+                    pkts.push(mk_end(id, &data[off..], crc));
+                    let storage = 70000usize;
+                    let mut d_rx = plain_dec(2, storage, 2, storage, table.clone());
+                    let mut rx = RxSpec::new(table);
+                    let mut deliveries = 0usize;
+                    for p in &pkts {
+                        rep.eval();
+                        let r = dec_guard(&mut d_rx, p);
+                        if r.is_err() {
+                            rep.count("c03.receiver-panic");
+                            return;
+                        }
+                        rx.observe(p, &r, RX_C03, "state-near-limit-re-use-short", rep, &replay);
+                        if let Ok(Ok((DecapStatus::CompletedPkt(b, m), _))) = r {
+                            deliveries += 1;
+                            if deliveries > 1 {
+                                rep.violation("C03", "delivered-despite-fault:near-limit-re-use-train-short".to_string(), || format!("re-use train announcing total length {} carried {} payload bytes ({} short), trailer computed with total length {}: a PDU of {} bytes was delivered", t_ann, r_len, d, crc_total, m.pdu_len()), &replay);
+                            }
+                            let _ = d_rx.provision_storage(b);
+                        }
+                    }
+                    rep.count(if deliveries > 1 { "c03.state-near-limit.delivered" } else { "c03.state-near-limit.rejected" });
+                    rep.nontrivial(mix(key, mix(t_ann as u64, d as u64)));
+                } else {
+                    // (b) a valid train whose end fragment arrives first with a damaged trailer (or a damaged payload
+                    // byte) and then intact; the application tops the free list up at a drawn point of the train
+                    // (before the train, after the first fragment, before the damaged end, never)
+                    let nseg = 3 + rng.below(3);
+                    let segs: Vec<Vec<u8>> = (0..nseg)
+                        .map(|_| {
+                            let n = 1 + rng.below(40);
+                            rng.bytes(n)
+                        })
+                        .collect();
+                    let full: Vec<u8> = segs.concat();
+                    let explicit = rng.chance(1, 2);
+                    let (flt, fwl): (u8, &[u8]) = if explicit { (lt, &wl) } else { (3, &[]) };
+                    let t = (2 + fwl.len() + full.len()) as u16;
+                    let crc = fr.gse(t, ptype, fwl, &full);
+                    let mut pkts: Vec<Vec<u8>> = vec![crate::hostile::mk_complete(lt, &wl, ptype, b"x"), mk_first(flt, fwl, id, t, ptype, &segs[0])];
+                    for sg in segs.iter().take(nseg - 1).skip(1) {
+                        pkts.push(mk_inter(id, sg));
+                    }
+                    let good_end = mk_end(id, &segs[nseg - 1], crc);
+                    let mut bad_end = good_end.clone();
+                    let n = bad_end.len();
+                    let at = if rng.chance(1, 2) { n - 1 - rng.below(4) } else { 3 + rng.below(n - 3) };
+                    bad_end[at] ^= 1 << rng.below(8);
+                    pkts.push(bad_end);
+                    pkts.push(good_end);
+                    let topup = rng.below(4);
+                    let topup_at = match topup {
+                        0 => 1,
+                        1 => 2,
+                        2 => pkts.len() - 2,
+                        _ => usize::MAX,
+                    };
+                    let storage = full.len() + rng.below(40);
+                    let slots = 1 + rng.below(3);
+                    let mut d_rx = plain_dec(slots, storage, 2, storage, table.clone());
+                    let mut rx = RxSpec::new(table);
+                    let mut deliveries = 0usize;
+                    for (i, p) in pkts.iter().enumerate() {
+                        if i == topup_at {
+                            for _ in 0..64 {
+                                if d_rx.provision_storage(vec![0u8; storage].into_boxed_slice()).is_err() {
+                                    break;
+                                }
+                            }
+                        }
+                        rep.eval();
+                        let r = dec_guard(&mut d_rx, p);
+                        if r.is_err() {
+                            rep.count("c03.receiver-panic");
+                            return;
+                        }
+                        rx.observe(p, &r, RX_C03, "state-damaged-end-then-intact-end", rep, &replay);
+                        if let Ok(Ok((DecapStatus::CompletedPkt(b, _), _))) = r {
+                            deliveries += 1;
+                            if deliveries > 1 {
+                                rep.violation("C03", "delivered-despite-fault:end-fragment-damaged-then-repeated-intact".to_string(), || format!("train of {} fragments on id {}: the end fragment arrived damaged (byte {}) and then intact, free list topped up at packet {:?}: a PDU was delivered", nseg, id, at, if topup < 3 { Some(topup_at) } else { None }), &replay);
+                            }
+                            let _ = d_rx.provision_storage(b);
+                        }
+                    }
+                    rep.count(&format!("c03.state-damaged-end.topup{}.{}", topup, if deliveries > 1 { "delivered" } else { "rejected" }));
+                    rep.nontrivial(mix(key, fnv(&pkts.concat())));
+                }
             }
             "big" => {
                 // storage >= 64 KiB; trains whose received payload approaches / exceeds 65535 bytes, with a
